@@ -56,6 +56,7 @@ type FuncSpec struct {
 	Iface     string // for interface method contracts: full interface type name
 	Method    string
 	Transparent bool
+	View        bool // assumed view of another package's function, used for calls from Pkg only
 	GhostSets []*GhostSet
 	Rely      []*Clause // assumed after every lock acquisition: what other goroutines leave alone (ownership)
 	usesLocked int
@@ -152,6 +153,7 @@ type AxiomSpec struct {
 
 type SpecDB struct {
 	Funcs   map[string]*FuncSpec
+	Views   map[string]*FuncSpec // "<viewing pkg>|<func key>": a client package's assumed view
 	Ifaces  map[string]*FuncSpec // key: ifaceType + "." + method
 	Preds   map[string]*PredSpec
 	Funs    map[string]*FunSpec
@@ -179,7 +181,7 @@ type ImmutableSpec struct {
 
 func newSpecDB() *SpecDB {
 	return &SpecDB{
-		Funcs: map[string]*FuncSpec{}, Ifaces: map[string]*FuncSpec{}, Preds: map[string]*PredSpec{},
+		Funcs: map[string]*FuncSpec{}, Views: map[string]*FuncSpec{}, Ifaces: map[string]*FuncSpec{}, Preds: map[string]*PredSpec{},
 		Funs: map[string]*FunSpec{}, Ghosts: map[string]*GhostSpec{}, Opaque: map[string]bool{},
 		FieldCalls: map[string]string{}, NonNilGlobalPkgs: map[string]bool{},
 	}
@@ -307,6 +309,8 @@ func splitTopLevel(s string, sep byte) []string {
 
 // expandFuncKey turns a contract-file function name into the go/ssa function
 // string.
+var typeArgAliasRe = regexp.MustCompile(`[A-Za-z_][A-Za-z0-9_]*\.[A-Za-z_][A-Za-z0-9_]*`)
+
 func expandFuncKey(name, pkgPath string, imports map[string]string) string {
 	name = strings.TrimSpace(name)
 	qual := func(t string) string {
@@ -315,6 +319,14 @@ func expandFuncKey(name, pkgPath string, imports map[string]string) string {
 		suffix := ""
 		if j := strings.Index(t, "["); j >= 0 {
 			base, suffix = t[:j], t[j:]
+			// package aliases inside the type arguments: Pool[dns.Msg]
+			suffix = typeArgAliasRe.ReplaceAllStringFunc(suffix, func(m string) string {
+				k := strings.Index(m, ".")
+				if p, ok := imports[m[:k]]; ok {
+					return p + m[k:]
+				}
+				return m
+			})
 		}
 		if j := strings.Index(base, "."); j >= 0 {
 			alias := base[:j]
@@ -485,9 +497,24 @@ func (db *SpecDB) loadSpecFile(path, pkgPath string, assumed bool) error {
 			key := expandFuncKey(d.text, pkgPath, imports)
 			curFunc = &FuncSpec{Key: key, Pkg: pkgPath, Assumed: assumed || d.kw == "ext", Loops: map[int]*LoopSpec{}, File: path, Line: d.line, Imports: imports, NoSafety: map[string]bool{}}
 			if old, dup := db.Funcs[key]; dup {
-				return fmt.Errorf("%s: duplicate contract for %s (first at %s:%d)", where, key, old.File, old.Line)
+				// A package may state its own assumed view of a function
+				// that has a (verified) contract in its home package: the
+				// view is used for calls made from the viewing package only.
+				home := func(fs *FuncSpec) bool { return fs.Pkg != "" && strings.Contains(key, fs.Pkg+".") }
+				switch {
+				case old.Pkg != curFunc.Pkg && home(old) && !home(curFunc):
+					curFunc.Assumed, curFunc.View = true, true
+					db.Views[curFunc.Pkg+"|"+key] = curFunc
+				case old.Pkg != curFunc.Pkg && home(curFunc) && !home(old):
+					old.Assumed, old.View = true, true
+					db.Views[old.Pkg+"|"+key] = old
+					db.Funcs[key] = curFunc
+				default:
+					return fmt.Errorf("%s: duplicate contract for %s (first at %s:%d)", where, key, old.File, old.Line)
+				}
+			} else {
+				db.Funcs[key] = curFunc
 			}
-			db.Funcs[key] = curFunc
 		case "interface":
 			reset()
 			// interface pkg.Type method Name
